@@ -774,9 +774,14 @@ def c17_scenario(rep, rng, scratch, idx):
         for _ in range(rng.randint(1, 4)):
             rel = os.path.join(rng.choice(dirs), "f%d é.txt" % rng.randint(0, 99))
             files.append(rel)
+        t_burst = mono()
         for rel in files:
             with open(os.path.join(wx.proj, rel), "w") as fh:
                 fh.write("x")
+        # all changes must fall into one debounce window (120 ms) for the first run's environment to cover them
+        if (mono() - t_burst) / 1e6 > 40 or LOAD.max_gap_ms(t_burst) > 40:
+            INC.append("burst-spread-over-several-windows")
+            return desc, wx, V, INC
         if not wx.wait_starts(n0 + 1, 6.0):
             INC.append("no-run-after-change")
             return desc, wx, V, INC
@@ -793,6 +798,9 @@ def c17_scenario(rep, rng, scratch, idx):
             if "=" in kv:
                 k, v = kv.split("=", 1)
                 env[bytes.fromhex(k).decode()] = bytes.fromhex(v).decode("utf8", "replace")
+        if LOAD.max_gap_ms(t_burst) > 40:
+            INC.append("machine-stalled-during-debounce-window")
+            return desc, wx, V, INC
         rep.count("c17_e2e_environments", 1)
         common = env.get("WATCHEXEC_COMMON_PATH")
         if common is None:
